@@ -30,9 +30,19 @@ func (s *DataSemaphore) Acquire(weight dag.Metric, timeout time.Duration) bool {
 	deadline := time.Now().Add(timeout)
 	s.mu.Lock()
 	defer s.mu.Unlock()
+	var timer *time.Timer
 	for !s.tryAcquire(weight) {
-		if weight.Size > s.maxProcessing.Size || weight.Num > s.maxProcessing.Num || time.Now().After(deadline) {
+		if weight.Size > s.maxProcessing.Size || weight.Num > s.maxProcessing.Num || !time.Now().Before(deadline) {
 			return false
+		}
+		if timer == nil {
+			// wake up at the deadline even if nothing gets released until then
+			timer = time.AfterFunc(time.Until(deadline), func() {
+				s.mu.Lock()
+				defer s.mu.Unlock()
+				s.cond.Broadcast()
+			})
+			defer timer.Stop()
 		}
 		s.cond.Wait()
 	}
